@@ -124,7 +124,7 @@ def main(argv):
     programs = [(n, s, "f2003") for n, s in CATALOGUE.items()] + [(n, s, "f2008") for n, s in CATALOGUE.items()] + \
                [(n, s, "f2008") for n, s in F2008_EXTRA.items()]
     if set(only) & {"C10", "C18", "C01"}:
-        if "C01" in only or tier == "thorough":
+        if "C01" in only or "C10" in only or tier == "thorough":
             # one small program per statement of the statement corpus (shared with the C17 check)
             from checks import enum_registries as ER
             corpus = [("exec:%d" % i, "program p\n  %s\nend program p\n" % x) for i, x in enumerate(ER.EXEC)] + \
